@@ -57,6 +57,12 @@ func opOf(name string) (treefs.Op, bool) {
 		return treefs.Op{Kind: "WriteFile", P: "d/n", Data: "nb"}, true
 	case "mkdir-d":
 		return treefs.Op{Kind: "MkdirAll", P: "d"}, true
+	case "remove-g":
+		return treefs.Op{Kind: "Remove", P: "d/g"}, true
+	case "remove-h":
+		return treefs.Op{Kind: "Remove", P: "d/h"}, true
+	case "read-g":
+		return treefs.Op{Kind: "ReadFile", P: "d/g"}, true
 	case "isfile-f":
 		return treefs.Op{Kind: "IsFile", P: "d/f"}, true
 	case "readdir-root":
@@ -93,8 +99,12 @@ func build(sp Spec, o *obs) func() {
 	return func() {
 		*o = obs{}
 		fs, _ := memfs.NewFilespace()
-		if sp.Init == "df" {
+		if sp.Init == "df" || sp.Init == "d3" {
 			fs.WriteFile("d/f", []byte("v0"), 0644)
+		}
+		if sp.Init == "d3" { // three files stored in this order in one directory
+			fs.WriteFile("d/g", []byte("g"), 0644)
+			fs.WriteFile("d/h", []byte("na"), 0644)
 		}
 		var wg vsched.WaitGroup
 		for ti, names := range sp.Threads {
@@ -247,9 +257,13 @@ var fsModel = porcupine.Model{
 
 func (e event) init() *treefs.Node {
 	t := treefs.NewDir()
-	if e.op.P == "df" {
+	if e.op.P == "df" || e.op.P == "d3" {
 		d := treefs.NewDir()
 		d.Kids["f"] = &treefs.Node{Data: "v0"}
+		if e.op.P == "d3" {
+			d.Kids["g"] = &treefs.Node{Data: "g"}
+			d.Kids["h"] = &treefs.Node{Data: "na"}
+		}
 		t.Kids["d"] = d
 	}
 	return t
@@ -426,6 +440,19 @@ func programs(thorough bool) []Spec {
 			Spec{init, [][]string{{"read-f-held-while-write-n"}, {"stream-write-f"}, {"readdir-d"}}, b3},
 		)
 	}
+	// several nodes in one directory: operations on DISTINCT names of a shared directory
+	multi := []string{"remove-f", "remove-g", "remove-h", "write-n-a", "readdir-d", "read-g", "copy-f-h", "mkdir-e"}
+	for i, a := range multi {
+		for _, b := range multi[i+1:] {
+			ps = append(ps, Spec{"d3", [][]string{{a}, {b}}, b2})
+		}
+	}
+	ps = append(ps,
+		Spec{"d3", [][]string{{"remove-f"}, {"remove-g"}, {"remove-h"}}, b3},
+		Spec{"d3", [][]string{{"remove-f"}, {"remove-h"}, {"readdir-d"}}, b3},
+		Spec{"d3", [][]string{{"remove-g"}, {"write-n-a"}, {"readdir-d"}}, b3},
+		Spec{"d3", [][]string{{"remove-f", "remove-g"}, {"remove-h", "readdir-d"}}, b22},
+	)
 	return ps
 }
 
@@ -476,7 +503,7 @@ func replay(wj json.RawMessage) (*fw.Violation, error) {
 
 func init() {
 	fw.Register(&fw.Check{ID: "C09", Level: "model_checking",
-		Rule: "programs = initial tree {empty, {d/f}} x (all unordered pairs of 12 single operations on a shared directory d and file d/f: WriteFile x2, ReadFile, writer and reader streams held open across a scheduling point, MkdirAll, nested write, Remove, RemoveAll, ReadDir, CopyFile, new-node write; 8 three-thread programs; 4 two-operation programs; 3 programs holding a reader open across another operation); every schedule of the real memfs with <= bound preemptions (pairs 3/8, triples 2/4, 2x2 3/5 for quick/thorough); oracle: the call/return history plus the final tree must be linearizable w.r.t. the tree model (porcupine), structural sanity of the final tree, no panic, no deadlock, race oracle on memfs fields. states = distinct schedule traces",
+		Rule: "programs = initial tree {empty, {d/f}} x (and, with three files d/f, d/g, d/h in one directory, all pairs of 8 operations on distinct names plus 4 larger programs) x (all unordered pairs of 12 single operations on a shared directory d and file d/f: WriteFile x2, ReadFile, writer and reader streams held open across a scheduling point, MkdirAll, nested write, Remove, RemoveAll, ReadDir, CopyFile, new-node write; 8 three-thread programs; 4 two-operation programs; 3 programs holding a reader open across another operation); every schedule of the real memfs with <= bound preemptions (pairs 3/8, triples 2/4, 2x2 3/5 for quick/thorough); oracle: the call/return history plus the final tree must be linearizable w.r.t. the tree model (porcupine), structural sanity of the final tree, no panic, no deadlock, race oracle on memfs fields. states = distinct schedule traces",
 		Run: run, Replay: replay,
 		Assumptions: []string{"linearizability against the tree model is used as the meaning of 'takes effect and is visible afterwards'; a stream counts as one operation from open to close", "2-3 threads; bounds as reported; word-sized fields outside the race oracle"}})
 }
